@@ -379,7 +379,11 @@ pub fn impl_(ctx: &Context, input: &DeriveInput) -> TokenStream {
                         self,
                         __flatty_bytes: &'__flatty_a mut [u8],
                     ) -> Result<&'__flatty_a mut #self_ident<#self_args>, ::flatty::Error> {
-                        <#init_ident<#init_args> as ::flatty::Emplacer<#self_ident<#self_args>>>::emplace_unchecked(self.into(), __flatty_bytes)
+                        // Not `self.into()`: an inherent method `into` of this (nameable) helper would win.
+                        <#init_ident<#init_args> as ::flatty::Emplacer<#self_ident<#self_args>>>::emplace_unchecked(
+                            <#init_ident<#init_args> as ::core::convert::From<#var_init_ident<#args>>>::from(self),
+                            __flatty_bytes,
+                        )
                     }
                 }
             }
